@@ -1299,6 +1299,11 @@ class TimePoint:
 
     @property
     def minute_of_hour_decimal_string(self):
+        if self._minute_of_hour is None:
+            # Decimal hours: the part below the whole minute is in the seconds
+            _, minute, second = self.get_hour_minute_second()
+            return self._get_decimal_string(
+                minute + second / CALENDAR.SECONDS_IN_MINUTE)
         return self._decimal_string("minute_of_hour")
 
     @property
@@ -1335,7 +1340,13 @@ class TimePoint:
     def _decimal_string(self, attr):
         """Return the decimal digits (after the decimal point) of the specified
         attribute as a string. Rounds to 6 d.p."""
-        decimal = float(getattr(self, attr)) - int(getattr(self, attr))
+        return self._get_decimal_string(getattr(self, attr))
+
+    @staticmethod
+    def _get_decimal_string(value):
+        """Return the decimal digits (after the decimal point) of value as a
+        string. Rounds to 6 d.p."""
+        decimal = float(value) - int(value)
         if decimal >= 0.9999995:
             # Truncate instead of rounding up because ticking over the higher
             # quantities would be complicated
